@@ -69,6 +69,8 @@ type Inst struct {
 	ComputeS func(in <-chan *asset.Snapshot) []Out
 	// Report builds the strategy report on a snapshot stream.
 	Report func(in <-chan *asset.Snapshot) *helper.Report
+	// Strat is the strategy value itself (strategies only), so that compounds can wrap it.
+	Strat any
 }
 
 // Pipe is one catalogue entry.
